@@ -19,11 +19,11 @@ type IterProd struct {
 	Kind string `json:"kind"` // gen iter seq deleg map filter genexp list range tuple str zipl enum chain
 	Tag  int    `json:"tag"`
 	N    int    `json:"n"`
-	Fail int    `json:"fail"` // item index at which the producer raises (-1: never)
-	Exc  string `json:"exc"`  // expression raised at Fail
-	Stop string `json:"stop"` // iter/seq: expression raised at the end
-	Sub  int    `json:"sub"`  // index of the wrapped producer (deleg map filter genexp zipl enum)
-	Sub2 int    `json:"sub2"` // second wrapped producer (zip2 map2); -1 otherwise
+	Fail int    `json:"fail"`           // item index at which the producer raises (-1: never)
+	Exc  string `json:"exc"`            // expression raised at Fail
+	Stop string `json:"stop"`           // iter/seq: expression raised at the end
+	Sub  int    `json:"sub"`            // index of the wrapped producer (deleg map filter genexp zipl enum)
+	Sub2 int    `json:"sub2"`           // second wrapped producer (zip2 map2); -1 otherwise
 	Body string `json:"body,omitempty"` // genrand: text of the generator function gr<Tag> (GenBody)
 }
 
